@@ -1,15 +1,15 @@
 #!/bin/bash
 # Re-evaluate every kept seeded change (seeded/<id>/) against the checks that
 # reported it (meta.json "checks"); results in $1 (default: a scratch directory
-# printed at the end), a summary table on stdout.  Takes ~1.5 h with 3 in parallel.
+# printed at the end), a summary table on stdout.  Takes ~4 h for the 120 changes with 3 in parallel.
 out=${1:-$(mktemp -d /tmp/seeded-eval-XXXX)}
 mkdir -p "$out"
 cd /verif
-for d in seeded/C*-[12]; do
+for d in seeded/C*-[1-6]; do
   id=$(basename $d); prop=${id%-*}
   checks=$(/venv/bin/python -c "import json,sys; m=json.load(open('$d/meta.json')); print(' '.join(c for c,v in m['checks'].items() if 'rc=1' in v))")
   echo "$prop /verif/$d $out/$id.json $checks"
-done | xargs -P ${PAR:-3} -L 1 bash -c 'p=$0; d=$1; o=$2; shift 3; timeout 5400 /verif/tools/eval_seeded.py $p $d "$@" > $o 2>$o.err'
+done | xargs -P ${PAR:-3} -L 1 bash -c 'p=$0; d=$1; o=$2; shift 3; timeout 7200 /verif/tools/eval_seeded.py $p $d "$@" > $o 2>$o.err'
 /venv/bin/python - "$out" <<'PY'
 import json, glob, sys, os
 for f in sorted(glob.glob(os.path.join(sys.argv[1], '*.json'))):
